@@ -178,6 +178,37 @@ func NewLockSets(fns []*ssa.Function) *LockSets {
 				_, isDefer := in.(*ssa.Defer)
 				callers[tgt] = append(callers[tgt], site{f, in, isDefer})
 			}
+			// a call of a func-typed parameter (a helper that runs its argument under a lock: withLock(func(){…})):
+			// the function literals handed to f in that position are called here, with whatever f holds here
+			if par, isPar := Strip(cc.Value).(*ssa.Parameter); isPar && tgt == nil {
+				pi := -1
+				for i, pp := range f.Params {
+					if pp == par {
+						pi = i
+					}
+				}
+				if pi >= 0 {
+					for _, g := range fns {
+						if g.Blocks == nil {
+							continue
+						}
+						Instrs(g, func(gin ssa.Instruction) {
+							gc := CallOf(gin)
+							if gc == nil || gc.StaticCallee() != f || pi >= len(gc.Args) {
+								return
+							}
+							for _, o := range originsNoLoad(gc.Args[pi]) {
+								if mc, ok := o.(*ssa.MakeClosure); ok {
+									if lit := mc.Fn.(*ssa.Function); ls.fns[lit] {
+										_, isDefer := in.(*ssa.Defer)
+										callers[lit] = append(callers[lit], site{f, in, isDefer})
+									}
+								}
+							}
+						})
+					}
+				}
+			}
 		})
 	}
 	top := map[string]bool{"⊤": true}
